@@ -12,7 +12,8 @@ Sub-checks (the `check` field): entry (the transformation call itself), initial 
 right after the transformation), flags (parameter flag moved, original keeps no
 distribution), value (original == b(t) after every assignment), logprob (new variable's
 log-density, Model.log_prob / log_prior / log_lik), params (model-dependent arguments
-take effect on assignment).
+take effect on assignment), raises (liesel raised while the transformed model was used).
+An exception counts as a violation only if mc.core.raised_in_repo() attributes it to liesel.
 """
 
 from __future__ import annotations
@@ -30,6 +31,8 @@ RULE = (
     "{Var.transform(instance), Var.transform(cls, *args | **args), Var.transform(None), auto_transform at build, "
     "deprecated GraphBuilder.transform(instance | cls with *args | **args | None)} x parameter kind {all constants, distribution "
     "parameters as variables (one with a hyper-prior), bijector arguments as variables, both} x "
+    "build style {GraphBuilder.add(x), add(sink only), Model([x]), Model([sink]) where the sink y ~ Normal(x, 1.5) "
+    "reaches x only as an input; all four for auto_transform, a sub-grid for the other entries in quick} x "
     "{scalar, vector(3)} x per_obs {on, off} x parameter flag {set, not set}; per case a lattice of 7 "
     "(thorough 13) unconstrained values is walked by assignment in the built model, then every parameter "
     "variable is re-assigned. Distinct outcome = (entry, option kind, parameter kind, shape/per_obs/flag, step kind, sign of log-density)."
@@ -86,6 +89,27 @@ ENTRIES = {
     "default": ["Var.transform(None)", "auto_transform", "GraphBuilder.transform(None)"],
 }
 
+# how the model is built after the transformation was requested: from the variable itself
+# or only from a downstream "sink" (y ~ Normal(x, 1.5), observed) of which x is an input -
+# then x (and, for auto_transform, the request to transform it) is only reachable
+# through the graph
+STYLES = ("add(x)", "add(sink)", "Model([x])", "Model([sink])")
+SINK_Y = (0.3, -1.2, 2.5)
+SINK_SCALE = 1.5
+
+
+def styles(entry, pk, tier):
+    if entry.startswith("GraphBuilder.transform"):  # the deprecated method adds x itself
+        return ["add(x)", "add(sink)"] if tier != "quick" else ["add(x)"]
+    if tier != "quick" or entry == "auto_transform":
+        return list(STYLES)
+    if entry == "Var.transform(None)":
+        return ["add(x)", "add(sink)"]
+    if entry in ("Var.transform(instance)", "Var.transform(cls,**args)") and pk == "const":
+        return ["add(x)", "Model([sink])"]
+    return ["add(x)"]
+
+
 SECOND_PARAMS = {  # thorough: a second parameter setting per family
     "LogNormal": {"loc": -1.0, "scale": 0.25}, "HalfCauchy": {"loc": 0.0, "scale": 0.4}, "InverseGamma": {"concentration": 1.5, "scale": 4.0},
     "Gamma": {"concentration": 0.7, "rate": 3.0}, "HalfNormal": {"scale": 0.3}, "Exponential": {"rate": 5.0}, "HalfCauchyLoc": {"loc": -2.0, "scale": 1.0},
@@ -99,6 +123,7 @@ def bounds(tier):
         "bijector_options": {k: [f"{o[0]}:{o[1]}{o[2] or ''}" for o in v] for k, v in OPTIONS.items()},
         "entry_points": sorted({e for v in ENTRIES.values() for e in v}),
         "parameter_kinds": ["const", "distvar", "bijvar", "bothvar"],
+        "build_styles": {"auto_transform": list(STYLES), "other entry points": "add(x) always; add(sink) / Model([x]) / Model([sink]) on a sub-grid (quick) or all (thorough)"},
         "shape_perobs_flag": [list(c) for c in combos(tier)],
         "t_lattice": list(T_QUICK if tier == "quick" else T_THOROUGH),
         "parameter_settings_per_family": 1 if tier == "quick" else 2,
@@ -200,7 +225,11 @@ def build(case, spec, opt, params0):
                 bargs[k] = float(v)
 
     entry = case["entry"]
+    style = case["style"]
     gb = lsl.GraphBuilder()
+    sink = None
+    if "sink" in style:
+        sink = lsl.obs(jnp.asarray(np.asarray(SINK_Y, dtype=np.float32)), lsl.Dist(tfd.Normal, loc=x, scale=SINK_SCALE), name="y")
 
     def do_entry():
       with warnings.catch_warnings():
@@ -225,7 +254,10 @@ def build(case, spec, opt, params0):
             gb.transform(x)
         else:
             raise ValueError(entry)
-        gb.add(x)
+        top = sink if sink is not None else x
+        if style.startswith("Model("):
+            return lsl.Model([top])
+        gb.add(top)
         return gb.build_model()
 
     return do_entry, dist_vars, bij_vars
@@ -236,20 +268,46 @@ def run_case(res, rec, case, spec, opt, params0, lattice):
 
     kind, bname, bkw, balt = opt
     fam_cls = spec["cls"]
-    sigbase = f"{case['family']}/{kind}:{bname or 'default'}/{case['entry']}"
-    shape = () if case["shape"] == "scalar" else (3,)
+    sigbase = f"{case['family']}/{kind}:{bname or 'default'}/{case['entry']}/{case['style']}"
 
     do_entry, dist_vars, bij_vars = build(case, spec, opt, params0)  # harness part: errors propagate
     try:
         model = do_entry()
-    except Exception as e:  # noqa: BLE001 - a supported combination must not raise
-        rec.fail("entry", f"{sigbase}:raises-{type(e).__name__}", case, f"{case['entry']} on {fam_cls} with {bname or 'the default bijector'} raised {type(e).__name__}: {str(e)[:300]}")
+    except Exception as e:  # noqa: BLE001
+        # thrown by liesel on a supported combination -> violation; thrown by the harness
+        # (or by TFP called directly from the harness) -> harness error
+        if not core.raised_in_repo(e, transparent=("do_entry", "run_case")):
+            raise
+        rec.fail("entry", f"{sigbase}:raises-{type(e).__name__}", case, f"{case['entry']} [{case['style']}] on {fam_cls} with {bname or 'the default bijector'} raised {type(e).__name__}: {str(e)[:300]}")
         res.transitions += 1
-        return
+        return None
     res.transitions += 2  # transformation + build
+    try:
+        return _after_build(res, rec, case, spec, opt, params0, lattice, model, dist_vars, bij_vars, sigbase)
+    except Exception as e:  # noqa: BLE001
+        if not core.raised_in_repo(e, transparent=("_after_build", "check_state", "run_case")):
+            raise
+        rec.fail("raises", f"{sigbase}:raises-{type(e).__name__}", case, f"{sigbase}: liesel raised {type(e).__name__} while the transformed model was used (assignment / value / log_prob): {str(e)[:300]}")
+        return None
+
+
+def _after_build(res, rec, case, spec, opt, params0, lattice, model, dist_vars, bij_vars, sigbase):
+    import jax.numpy as jnp
+
+    kind, bname, bkw, balt = opt
+    fam_cls = spec["cls"]
+    shape = () if case["shape"] == "scalar" else (3,)
+    has_sink = "sink" in case["style"]
     if "x_transformed" not in model.vars or "x" not in model.vars:
-        rec.fail("entry", f"{sigbase}:no-transformed-variable", case, f"model has variables {list(model.vars)}")
-        return
+        rec.fail("entry", f"{sigbase}:no-transformed-variable", case, f"{sigbase}: the built model has variables {list(model.vars)}: no unconstrained variable x_transformed was created")
+        return None
+    # every variable handed to the distribution / the bijector must be part of the model
+    missing = [f"p_{k}" for k in dist_vars if f"p_{k}" not in model.vars] + [f"b_{k}" for k in bij_vars if f"b_{k}" not in model.vars]
+    if has_sink and "y" not in model.vars:
+        missing.append("y")
+    if missing:
+        rec.fail("entry", f"{sigbase}:argument-variable-not-in-model", {**case, "missing": missing},
+                 f"{sigbase}: variables {missing} given as distribution parameters / bijector arguments are not part of the built model {list(model.vars)} (disconnected from the graph)")
     ox, tx = model.vars["x"], model.vars["x_transformed"]
 
     params = dict(params0)
@@ -263,7 +321,7 @@ def run_case(res, rec, case, spec, opt, params0, lattice):
 
     params = {k: f32r(v) for k, v in params.items()}
     bparams = {k: f32r(v) for k, v in bparams.items()}
-    hyper_name = f"p_{dist_vars[0]}" if dist_vars else None
+    hyper_name = f"p_{dist_vars[0]}" if dist_vars else None  # carries the hyper-prior
 
     # ---- right after the transformation -------------------------------------------------
     x0 = np.asarray(spec["x0"][0] if case["shape"] == "scalar" else spec["x0"][1], dtype=np.float32).astype(np.float64)
@@ -320,15 +378,20 @@ def run_case(res, rec, case, spec, opt, params0, lattice):
             rec.fail("flags", f"{sigbase}:original-log_prob-nonzero", case_s, f"{sigbase}: original variable reports log_prob {olp}")
         tot = float(np.sum(lp_el))
         ttol = float(np.sum(tol_el)) + LP_RTOL * (1 + abs(hyper))
+        lik = 0.0
+        if has_sink:  # y_j ~ Normal(x, SINK_SCALE), x broadcast against the three observations
+            ll = ref.base_logpdf("Normal", np.asarray(SINK_Y, dtype=np.float32).astype(np.float64), {"loc": np.broadcast_to(want_x, (3,)), "scale": SINK_SCALE})
+            lik = float(np.sum(ll))
+            ttol += LP_RTOL * float(np.sum(1 + np.abs(ll)))
         mlp, mprior, mlik = float(model.log_prob), float(model.log_prior), float(model.log_lik)
-        if not abs(mlp - (tot + hyper)) <= ttol:
-            rec.fail("logprob", f"{sigbase}:Model.log_prob", case_s, f"{sigbase} [{step}]: Model.log_prob = {mlp}, expected {tot + hyper} at t={t.tolist()}")
+        if not abs(mlp - (tot + hyper + lik)) <= ttol:
+            rec.fail("logprob", f"{sigbase}:Model.log_prob", case_s, f"{sigbase} [{step}]: Model.log_prob = {mlp}, expected {tot + hyper + lik} at t={t.tolist()}")
         want_prior = (tot if case["flag"] else 0.0) + hyper
         if not abs(mprior - want_prior) <= ttol:
             rec.fail("logprob", f"{sigbase}:Model.log_prior", case_s, f"{sigbase} [{step}]: Model.log_prior = {mprior}, expected {want_prior} (parameter flag {case['flag']}) at t={t.tolist()}")
-        if mlik != 0.0:
-            rec.fail("logprob", f"{sigbase}:Model.log_lik", case_s, f"{sigbase} [{step}]: Model.log_lik = {mlik}, expected 0")
-        res.outcome(case["entry"], kind, case["paramkind"], case["shape"], case["per_obs"], case["flag"], step[0], "lp>0" if tot > 0 else "lp<0")
+        if not abs(mlik - lik) <= (ttol if has_sink else 0.0):
+            rec.fail("logprob", f"{sigbase}:Model.log_lik", case_s, f"{sigbase} [{step}]: Model.log_lik = {mlik}, expected {lik}")
+        res.outcome(case["entry"], case["style"], kind, case["paramkind"], case["shape"], case["per_obs"], case["flag"], step[0], "lp>0" if tot > 0 else "lp<0")
         return glp
 
     # ---- lattice walk by assignment ---------------------------------------------------------
@@ -351,11 +414,13 @@ def run_case(res, rec, case, spec, opt, params0, lattice):
 
     # ---- model-dependent arguments take effect on assignment --------------------------------
     for k in dist_vars:
+        if f"p_{k}" not in model.vars:
+            continue  # reported above
         params[k] = f32r(spec["alt"][k])
         model.vars[f"p_{k}"].value = jnp.float32(spec["alt"][k])
         check_state(("p", k), tcur)
     for k in bij_vars:
-        if k in balt:
+        if k in balt and f"b_{k}" in model.vars:
             bparams[k] = f32r(balt[k])
             model.vars[f"b_{k}"].value = jnp.float32(balt[k])
             check_state(("b", k), tcur)
@@ -377,13 +442,14 @@ def run_unit(unit):
     first = True
     for entry in ENTRIES[opt[0]]:
         for pk in param_kinds(spec, opt):
-            for shp, per_obs, flag in combos(tier):
-                case = {"family": unit["family"], "bijector": f"{opt[0]}:{opt[1] or 'default'}{opt[2] or ''}", "entry": entry, "paramkind": pk,
-                        "shape": shp, "per_obs": per_obs, "flag": flag, "dist_params": params0}
-                if first:
-                    case["note"] = True
-                walk = run_case(res, rec, case, spec, opt, params0, lattice)
-                if first:
-                    res.sample({**case, "walk": walk})
-                first = False
+            for style in styles(entry, pk, tier):
+                for shp, per_obs, flag in combos(tier):
+                    case = {"family": unit["family"], "bijector": f"{opt[0]}:{opt[1] or 'default'}{opt[2] or ''}", "entry": entry, "style": style, "paramkind": pk,
+                            "shape": shp, "per_obs": per_obs, "flag": flag, "dist_params": params0}
+                    if first:
+                        case["note"] = True
+                    walk = run_case(res, rec, case, spec, opt, params0, lattice)
+                    if first:
+                        res.sample({**case, "walk": walk})
+                    first = False
     return res
